@@ -1,10 +1,10 @@
 #!/bin/bash
 # benign_table.sh: behaviour-preserving edits must not raise an alarm. For every patch under
 # /verif/seeded/_benign/Cnn/k/ run the quick check of Cnn (and C06) on a scratch copy.
-IN=${IN:-/verif/seeded/_benign}
+IN=${IN:-/verif/benign}
 cd $IN
-for v in $(ls -d C*/[0-9] 2>/dev/null); do
-  p=${v%/*}
+for v in $(ls -d C*_[0-9] 2>/dev/null); do
+  p=${v%_*}
   [ -f $IN/$v/patch.diff ] || continue
   WT=$(mktemp -d /tmp/benign_XXXXXX)
   cp -r /repo/. $WT/; ( cd $WT && git checkout -q -- . && git clean -fdq )
